@@ -57,6 +57,11 @@ type Analysis struct {
 	Hostile    bool      `json:"hostile,omitempty"`
 	NonTrivial bool      `json:"nontrivial,omitempty"`
 	Invalid    string    `json:"invalid,omitempty"` // the definition is not a valid proto file (harness bug)
+	// Twins: two methods with a quorum function have reply (or custom return)
+	// types of the same Go base name in different packages. Documented-legal
+	// (imported types, any names), recorded because the templates name their
+	// data types by base name only.
+	Twins bool `json:"twins,omitempty"`
 }
 
 // FeatureKeys returns the keys of the features, in order, without repeats.
@@ -117,7 +122,11 @@ func NameClass(role, name string) string {
 	}
 	gn := GoCamelCase(name)
 	if staticGoNames[gn] {
-		return gn // keyed by the Go identifier the generators derive
+		// keyed by the Go identifier the generators derive (plus the spelling if it differs)
+		if gn != name {
+			return gn + "~" + name
+		}
+		return gn
 	}
 	if name[0] == '_' || keywordLike[strings.ToLower(name)] {
 		return name
@@ -505,6 +514,25 @@ func Analyze(d Def) Analysis {
 				add(Feature{Key: "method-name=dup-go-name", Hostile: true, aspect: "methname", svc: si, meth: mi, msg: -1})
 			}
 			goMeths[gn] = true
+		}
+	}
+	// twins
+	basePkg := map[string]string{}
+	for _, s := range f.Services {
+		for _, m := range s.Methods {
+			if !m.Quorumcall && !m.Correctable {
+				continue
+			}
+			kind, name := typeKind(&d, m.Out)
+			for _, n := range []string{GoCamelCase(name), m.CustomReturn} {
+				if n == "" {
+					continue
+				}
+				if p, ok := basePkg[n]; ok && p != kind {
+					a.Twins = true
+				}
+				basePkg[n] = kind
+			}
 		}
 	}
 	for c := range ctSet {
